@@ -7,6 +7,12 @@ W=${SCRATCH:-/tmp/selftest-repo}
 rm -rf $W; git -C /repo worktree prune; git -C /repo worktree add -q --detach $W HEAD || exit 2
 trap 'git -C /repo worktree remove --force $W 2>/dev/null; rm -rf $W' EXIT
 ids=${@:-$(ls /verif/seeded | grep -E '^C[0-9]+-m[0-9]+$')}
+OUT=${SELFTEST_MD:-/verif/SELFTEST.md}
+if [ $# -eq 0 ]; then
+  { echo "# Seeded changes against the quick checks"; echo; echo "Run of \`selftest/all.sh\` on $(date -u +%Y-%m-%dT%H:%MZ); /repo HEAD $(git -C /repo rev-parse --short HEAD), /verif HEAD $(git -C /verif rev-parse --short HEAD)."
+    echo "Each change is applied to a scratch worktree (never to /repo) and the quick check of its property is run with \`-repo\`."; echo
+    echo "| seed | verdict | violations | with failing input | first failing obligation |"; echo "|---|---|---|---|---|"; } > $OUT
+fi
 for id in $ids; do
   prop=${id%%-*}
   grep -q "\"$prop\"" /verif/MANIFEST.json || { echo "$id: SKIP (property not claimed)"; continue; }
@@ -22,6 +28,7 @@ PY
   conf=$(echo "$out" | grep '^VIOLATION' | grep -vc 'no-failing-input-found')
   und=$(echo "$out" | grep -c '^UNDECIDED')
   first=$(echo "$out" | grep '^VIOLATION' | head -1 | sed 's/.*obligation=//' | cut -c1-110)
-  if [ $rc -ne 0 ] && [ $v -gt 0 ]; then echo "$id: CAUGHT rc=$rc violations=$v with-failing-input=$conf undecided=$und first=$first"
-  else echo "$id: MISSED rc=$rc undecided=$und $(echo "$out" | tail -1)"; fi
+  if [ $rc -ne 0 ] && [ $v -gt 0 ]; then echo "$id: CAUGHT rc=$rc violations=$v with-failing-input=$conf undecided=$und first=$first"; verdict=caught
+  else echo "$id: MISSED rc=$rc undecided=$und $(echo "$out" | tail -1)"; verdict=MISSED; fi
+  [ $# -eq 0 ] && echo "| $id | $verdict | $v | $conf | \`$(echo "$first" | sed 's/ status=.*//; s/|/\\|/g')\` |" >> $OUT
 done
